@@ -43,8 +43,8 @@ def check(cx):
     ]
     ck.does_not_decide += ['that a concrete later JOIN consumes the invitation (C07 R7.4 decides the consuming site)']
     prog = cx.prog
-    rp = cx.rule('R9.6', 'rank predicate bodies', floor=5, kind='equivalence')
-    check_rank_predicates(cx, rp)
+    rp = cx.rule('R9.6', 'rank predicate bodies used by KICK/TOPIC/INVITE', floor=4, kind='equivalence')
+    check_rank_predicates(cx, rp, names=('is_protected', 'is_operator', 'is_half_operator', 'is_only_half_operator'))
 
     # ================================================================ KICK
     fk = cx.fn('process_kick')
@@ -279,3 +279,33 @@ def _set_typed(prog, node):
     else:
         ty = prog.ty(node['args'][0]) if node.get('args') else ''
     return 'HashSet<' in ty or 'BTreeSet<' in ty or 'hash::set' in ty or 'hash_set' in ty
+
+
+def rule_kick_relative(cx, rule):
+    """membership view of KICK, relative to the handler's own selection (shared: C04 R4.7): a victim is removed through
+       remove_user_from_channel(channel, victim), and the KICK line goes to the remaining members and to the victim under exactly the
+       condition of the removal.  Whether the selection is the right one is C09's business."""
+    fk = cx.fn('process_kick')
+    w = cx.walk(fk, args=[SELF, CONN, CHN, KUS, COMMENT], key='c09')
+    removes = [e for e in w.events if is_call(e, 'remove_user_from_channel') and e.data.get('local')]
+    rule.instance('KICK: removals through remove_user_from_channel: %d' % len(removes))
+    if not removes or any(e.data['args'][1:] != [CHN, VIC] for e in removes):
+        rule.violation('process_kick|relative|removal', 'a kicked user is not removed through remove_user_from_channel(channel, victim)', loc=fk)
+        return
+    removed = Or(*[strip_dedup(e.pc) for e in removes])
+    snd = sends(w)
+    to_rest = [(e, s) for e, s in snd if s['to'] == user(('elem', ('keys', MEMBERS)))]
+    to_vic = [(e, s) for e, s in snd if s['to'] == user(VIC)]
+    for what, lst in (('the remaining members', to_rest), ('the victim', to_vic)):
+        rule.instance('KICK: line to %s <=> removal' % what)
+        if not lst:
+            rule.violation('process_kick|relative|untold|%s' % what.split()[-1], 'a kick is not announced to %s' % what, loc=fk)
+        for e, s in lst:
+            f = strip_dedup(e.pc)
+            for a in atoms(f):
+                if a == ('is', ('get', MEMBERS, ('elem', ('keys', MEMBERS))), 'Some') or a == ('is', ('get', USERS, ('elem', ('keys', MEMBERS))), 'Some'):
+                    f = subst(f, a, True)
+            ok, m = equivalent(f, removed)
+            if not ok:
+                rule.violation('process_kick|relative|announcement|%s' % what.split()[-1], 'the KICK line to %s and the removal do not happen under '
+                               'the same condition (%s)' % (what, m), loc=cx.loc(e.node))
